@@ -1082,11 +1082,13 @@ def rule_ignore_dominates(ctx, rep: Report, rid="A5"):
     # the three ignore tests return empty text before building anything
     for name in ("wrap_instantiated_class", "wrap_instantiated_declaration", "wrap_stl_class"):
         f2 = prog.method("PybindWrapper", name)
-        tests = [i for i in f2.body if isinstance(i, ast.If) and "self.ignore_classes" in unparse(i.test)]
+        from .rules_matlab import _ignore_tests, _prepare_ignore_helpers
+        _prepare_ignore_helpers(prog)
+        tests = [i for i in f2.body if isinstance(i, ast.If) and _ignore_tests(i.test)]
+        its = _ignore_tests(tests[0].test) if tests else []
         ok = len(tests) == 1 and isinstance(tests[0].body[0], ast.Return) and unparse(tests[0].body[0].value) == "''" \
-            and isinstance(tests[0].test, ast.Compare) and isinstance(tests[0].test.ops[0], ast.In) \
-            and unparse(tests[0].test.comparators[0]) == "self.ignore_classes" \
-            and unparse(one_value(f2, tests[0].test.left)) == f"{func_params(f2)[1]}.to_cpp()"
+            and len(its) == 1 and isinstance(its[0].ops[0], ast.In) and (its[0] is tests[0].test or isinstance(tests[0].test, ast.Call)) \
+            and unparse(one_value(f2, its[0].left)) == f"{func_params(f2)[1]}.to_cpp()"
         rep.add(rid, f"{name}:ignored class yields no text", ok,
                 f"ignore test {[unparse(t.test) for t in tests]}", f"{ci.mod.rel}:{f2.lineno}")
     if n < 1:
